@@ -279,6 +279,11 @@ def run(shard, rec, rng):
                     rec.observe("with_defaults_general_rule_first")
             else:
                 rules.append(Rule(rs, endpoint=f"ep{i}", **kw))
+                if mode == "host" and "<" in kw["host"] and rng.random() < 0.4:
+                    # the same endpoint (same arguments) served on a second family of hosts under another path
+                    twin = Rule("/twin" + rs, endpoint=f"ep{i}", host=kw["host"].replace(".h.com", ".h.org"))
+                    rules.insert(rng.randrange(len(rules) + 1), twin)
+                    rec.observe("endpoint_on_two_host_families")
             specs.append((rs, convs, kw, defaults))
         # rule factories around the rules of any configuration (they re-create every rule through Rule.empty())
         epfx = ""
@@ -294,13 +299,28 @@ def run(shard, rec, rng):
             rec.observe(f"wrap:{wrap}:{mode}")
         try:
             if mode == "submount":
-                m = Map([Submount("/sub m", rules)])
+                top, mkw = [Submount("/sub m", rules)], {}
             elif mode == "subdomainfactory":
-                m = Map([Subdomain("fac", rules)])
+                top, mkw = [Subdomain("fac", rules)], {}
             elif mode == "default_subdomain":
-                m = Map(rules, default_subdomain="www")
+                top, mkw = rules, {"default_subdomain": "www"}
             else:
-                m = Map(rules, host_matching=(mode == "host"))
+                top, mkw = rules, {"host_matching": mode == "host"}
+            if len(top) >= 2 and rng.random() < 0.3:
+                # history: the map answers requests (misses, on several hosts) before its last rules are added
+                k = rng.randint(1, len(top) - 1)
+                m = Map(top[:k], **mkw)
+                for hh in ("h.com", "abc.h.com", "nowhere.example"):
+                    for pp in ("/__warm-up__", "/e0/__warm-up__/x"):
+                        try:
+                            (m.bind(hh, "/") if mode == "host" else m.bind("h.com", "/", subdomain=hh.split(".")[0] if hh != "h.com" else None)).match(pp)
+                        except HTTPException:
+                            pass
+                for late_rule in top[k:]:
+                    m.add(late_rule)
+                rec.observe("maps_extended_after_first_use")
+            else:
+                m = Map(top, **mkw)
         except Exception as e:
             rec.observe(f"map_error:{type(e).__name__}")
             continue
